@@ -8,7 +8,8 @@
 (* next reset event.  `cnt` counts, per monitor, the steps on which its    *)
 (* antecedent held.  A reset event names the flavour and the capacity      *)
 (* limits (the library's public constants) and carries the getters of the  *)
-(* freshly registered, empty registry, which are judged as well.           *)
+(* freshly registered, empty registry, which are judged as well.  Steps    *)
+(* carry the returned value in `ret` (claims: the id add_claim returned).  *)
 (***************************************************************************)
 EXTENDS Registries, TLC, Json, IOUtils
 
@@ -42,8 +43,11 @@ Next ==
   /\ LET raw == Rec[l] IN
      IF raw.op.op = "reset" THEN
        LET g0  == GInit(raw.op.flavour, raw.op.lim, raw.obs)
-           bad == {k \in {"query", "enum"} :
-                     ~(IF k = "query" THEN QueryOk(g0, raw.obs) ELSE EnumOk(g0, raw.obs))} IN
+           \* (claims: the id table of the universe is judged on the fresh registry as well)
+           bad == {k \in {"query", "enum"} \cup (IF g0.fl = "claims" THEN {"ids"} ELSE {}) :
+                     ~(CASE k = "query" -> QueryOk(g0, raw.obs)
+                         [] k = "enum" -> EnumOk(g0, raw.obs)
+                         [] OTHER      -> IdsClaims(g0, raw))} IN
        /\ \A k \in bad : Report(raw, MonName(g0.fl, k), "fresh_registry")
        /\ g' = g0 /\ dead' = (bad # {}) /\ UNCHANGED cnt
      ELSE IF dead THEN UNCHANGED <<g, dead, cnt>>
